@@ -43,6 +43,7 @@ func cmdVerify(args []string) int {
 	repo := fs.String("repo", "/repo", "repository root")
 	funcs := fs.String("f", "", "comma-separated function keys or prefixes (default: all contracts)")
 	exact := fs.Bool("x", false, "match -f keys exactly (no prefix matching)")
+	listImpl := fs.Bool("listimpl", false, "print the keys of interface-method implementations that have no own annotation block, and exit")
 	allImpl := fs.Bool("all", false, "without -f: also verify implementations of interface methods that have no own annotation block")
 	verbose := fs.Bool("v", false, "verbose")
 	unroll := fs.Int("unroll", 2, "unrolling bound for loops without invariants")
@@ -80,6 +81,19 @@ func cmdVerify(args []string) int {
 		if ct := contractFor(prog, fi); ct != nil && ct.Iface {
 			prog.implContracts[k] = ct
 		}
+	}
+	if *listImpl {
+		var ks []string
+		for k := range prog.implContracts {
+			if prog.Contracts[k] == nil {
+				ks = append(ks, k)
+			}
+		}
+		sort.Strings(ks)
+		for _, k := range ks {
+			fmt.Println(k)
+		}
+		return 0
 	}
 	for k := range prog.implContracts {
 		if *funcs == "" && prog.Contracts[k] == nil && !*allImpl {
